@@ -4,6 +4,7 @@ package main
 import (
 	"bytes"
 	"encoding/hex"
+	"net"
 	"reflect"
 	"strings"
 
@@ -292,6 +293,117 @@ func run(r *Rng, tier string, n int) {
 			}
 			st["empty_value_checked"]++
 			checkRR(c, GenInfo{WellFormed: true, Note: "empty value"}, false)
+		}
+	}
+	// (1d) EDNS0 Client Subnet: every prefix length of both families, address canonical (no bits beyond
+	// the prefix), scope 0 and = prefix: RFC 7871 layout (ceil(prefix/8) address octets) and round trip
+	for fam, bits := range map[uint16]int{1: 32, 2: 128} {
+		for plen := 0; plen <= bits; plen++ {
+			addr := r.Bytes(bits / 8)
+			for i := range addr {
+				switch {
+				case i*8 >= plen:
+					addr[i] = 0
+				case i*8+8 > plen:
+					addr[i] &= byte(0xff) << uint(8-plen%8)
+					addr[i] |= 1 << uint(8-plen%8) // the last transmitted bit is set: the final octet matters
+				}
+			}
+			for _, scope := range []uint8{0, uint8(plen)} {
+				o := &dns.OPT{Hdr: dns.RR_Header{Name: ".", Rrtype: dns.TypeOPT, Class: 4096}}
+				o.Option = []dns.EDNS0{&dns.EDNS0_SUBNET{Code: dns.EDNS0SUBNET, Family: fam, SourceNetmask: uint8(plen), SourceScope: scope, Address: net.IP(addr)}}
+				want := 4 + 4 + (plen+7)/8
+				buf := make([]byte, 64)
+				if off, err := dns.PackRR(o, buf, 0, nil, false); err != nil || off != 11+want {
+					Viol("C01/OPT/subnet-layout", "EDNS0_SUBNET /"+Itoa(plen)+" family "+Itoa(int(fam))+" packs to "+Itoa(off-11)+" RDATA octets, RFC 7871 prescribes "+Itoa(want), inRR{"OPT", o.String(), Hx(buf[:off]), ""})
+				}
+				checkRR(o, GenInfo{WellFormed: true, Note: "subnet"}, plen%16 == 1)
+				st["subnet_checked"]++
+			}
+		}
+	}
+	// (1e) every SVCB parameter kind alone, every pair of kinds (keys ascending), and all together; every
+	// EDNS0 option kind alone with small and boundary values
+	{
+		mk := []func() dns.SVCBKeyValue{
+			func() dns.SVCBKeyValue { return &dns.SVCBMandatory{Code: []dns.SVCBKey{dns.SVCB_ALPN, dns.SVCB_PORT}} },
+			func() dns.SVCBKeyValue { return &dns.SVCBAlpn{Alpn: []string{"h2", "h3"}} },
+			func() dns.SVCBKeyValue { return &dns.SVCBNoDefaultAlpn{} },
+			func() dns.SVCBKeyValue { return &dns.SVCBPort{Port: uint16(r.Intn(65536))} },
+			func() dns.SVCBKeyValue { return &dns.SVCBIPv4Hint{Hint: []net.IP{net.IP(r.Bytes(4))}} },
+			func() dns.SVCBKeyValue { return &dns.SVCBECHConfig{ECH: r.Bytes(1 + r.Intn(20))} },
+			func() dns.SVCBKeyValue {
+				return &dns.SVCBIPv6Hint{Hint: []net.IP{net.IP(append([]byte{0x20, 1}, r.Bytes(14)...))}}
+			},
+			func() dns.SVCBKeyValue { return &dns.SVCBDoHPath{Template: "/dns-query{?dns}"} },
+			func() dns.SVCBKeyValue { return &dns.SVCBOhttp{} },
+			func() dns.SVCBKeyValue { return &dns.SVCBLocal{KeyCode: 65400, Data: r.Bytes(r.Intn(10))} },
+		}
+		rec := func(vals []dns.SVCBKeyValue, https bool) dns.RR {
+			sv := dns.SVCB{Hdr: dns.RR_Header{Name: "svc.example.", Rrtype: dns.TypeSVCB, Class: 1, Ttl: 60}, Priority: 1, Target: "t.example.", Value: vals}
+			if https {
+				sv.Hdr.Rrtype = dns.TypeHTTPS
+				return &dns.HTTPS{SVCB: sv}
+			}
+			return &sv
+		}
+		for i := range mk {
+			checkRR(rec([]dns.SVCBKeyValue{mk[i]()}, i%2 == 0), GenInfo{WellFormed: true, Note: "svcb-single"}, true)
+			for j := i + 1; j < len(mk); j++ {
+				checkRR(rec([]dns.SVCBKeyValue{mk[i](), mk[j]()}, j%2 == 0), GenInfo{WellFormed: true, Note: "svcb-pair"}, false)
+				st["svcb_kinds_checked"]++
+			}
+		}
+		var all []dns.SVCBKeyValue
+		for i := range mk {
+			all = append(all, mk[i]())
+		}
+		checkRR(rec(all, false), GenInfo{WellFormed: true, Note: "svcb-all"}, true)
+		opts := []func() dns.EDNS0{
+			func() dns.EDNS0 { return &dns.EDNS0_NSID{Code: dns.EDNS0NSID, Nsid: "a1b2"} },
+			func() dns.EDNS0 { return &dns.EDNS0_COOKIE{Code: dns.EDNS0COOKIE, Cookie: "0011223344556677"} },
+			func() dns.EDNS0 {
+				return &dns.EDNS0_COOKIE{Code: dns.EDNS0COOKIE, Cookie: "00112233445566778899aabbccddeeff0011223344556677"}
+			},
+			func() dns.EDNS0 { return &dns.EDNS0_UL{Code: dns.EDNS0UL, Lease: uint32(r.Next())} },
+			func() dns.EDNS0 { return &dns.EDNS0_UL{Code: dns.EDNS0UL, Lease: 7, KeyLease: uint32(r.Next()) | 1} },
+			func() dns.EDNS0 {
+				return &dns.EDNS0_LLQ{Code: dns.EDNS0LLQ, Version: 1, Opcode: 2, Error: 3, Id: r.Next(), LeaseLife: uint32(r.Next())}
+			},
+			func() dns.EDNS0 { return &dns.EDNS0_DAU{Code: dns.EDNS0DAU, AlgCode: r.Bytes(1 + r.Intn(5))} },
+			func() dns.EDNS0 { return &dns.EDNS0_DHU{Code: dns.EDNS0DHU, AlgCode: r.Bytes(1 + r.Intn(5))} },
+			func() dns.EDNS0 { return &dns.EDNS0_N3U{Code: dns.EDNS0N3U, AlgCode: r.Bytes(1 + r.Intn(5))} },
+			func() dns.EDNS0 { return &dns.EDNS0_EXPIRE{Code: dns.EDNS0EXPIRE, Expire: uint32(r.Next())} },
+			func() dns.EDNS0 { return &dns.EDNS0_EXPIRE{Code: dns.EDNS0EXPIRE, Empty: true} },
+			func() dns.EDNS0 {
+				return &dns.EDNS0_TCP_KEEPALIVE{Code: dns.EDNS0TCPKEEPALIVE, Timeout: uint16(1 + r.Intn(65535))}
+			},
+			func() dns.EDNS0 { return &dns.EDNS0_TCP_KEEPALIVE{Code: dns.EDNS0TCPKEEPALIVE} },
+			func() dns.EDNS0 { return &dns.EDNS0_PADDING{Padding: make([]byte, r.Intn(40))} },
+			func() dns.EDNS0 { return &dns.EDNS0_EDE{InfoCode: uint16(r.Intn(30)), ExtraText: "extra text"} },
+			func() dns.EDNS0 { return &dns.EDNS0_EDE{InfoCode: 65535} },
+			func() dns.EDNS0 { return &dns.EDNS0_ESU{Code: dns.EDNS0ESU, Uri: "sip:+123@example.com"} },
+			func() dns.EDNS0 { return &dns.EDNS0_REPORTING{Code: dns.EDNS0REPORTING, AgentDomain: "agent.example."} },
+			func() dns.EDNS0 {
+				return &dns.EDNS0_ZONEVERSION{Code: dns.EDNS0ZONEVERSION, LabelCount: 2, Type: 0, Version: "00000001"}
+			},
+			func() dns.EDNS0 { return &dns.EDNS0_LOCAL{Code: 65001, Data: r.Bytes(r.Intn(12))} },
+			func() dns.EDNS0 { return &dns.EDNS0_LOCAL{Code: 4242, Data: r.Bytes(1 + r.Intn(12))} },
+		}
+		for i := range opts {
+			for k := 0; k < 2; k++ {
+				o := &dns.OPT{Hdr: dns.RR_Header{Name: ".", Rrtype: dns.TypeOPT, Class: 1232}}
+				o.Option = []dns.EDNS0{opts[i]()}
+				if k == 1 {
+					o.Option = append(o.Option, opts[(i+7)%len(opts)]())
+				}
+				if pr, _ := packRR(dns.Copy(o), 400); !strings.HasPrefix(pr, "ok:") {
+					st["edns_option_does_not_pack"]++
+					continue
+				}
+				checkRR(o, GenInfo{WellFormed: true, Note: "edns-kind"}, k == 0)
+				st["edns_kinds_checked"]++
+			}
 		}
 	}
 	// (2) character-string and octet fields with backslashes (escape handling on both sides)
